@@ -71,10 +71,6 @@ func (calc *RewardCalculator) Calculate() (amt *balance.Amount, err error) {
 	cycleNo, firstInCycle, _ := calc.getCycleNo()
 	if calc.cached.available() {
 		*amt = *calc.cached.amount
-		// return if all reward years already passed
-		if calc.cached.burnedout {
-			return
-		}
 		// recalculation is not needed if it's in the same cycle
 		if !firstInCycle {
 			return
